@@ -41,7 +41,11 @@ func cmdFuncs(args []string) {
 	pinv := fs.String("pinv", "", "param invariant: <type string>=<expr over $p>")
 	fs.Parse(args)
 	t0 := time.Now()
-	eng, err := LoadEngine(*repo, strings.Split(*pkgs, ","), "/verif/gcv/deps")
+	depsDir := "/verif/gcv/deps"
+	if d := os.Getenv("GCV_DEPS"); d != "" {
+		depsDir = d
+	}
+	eng, err := LoadEngine(*repo, strings.Split(*pkgs, ","), depsDir)
 	if err != nil {
 		fmt.Println("TOOL-ERROR load:", err)
 		os.Exit(2)
